@@ -76,5 +76,5 @@ CARRIED = {
     "C18": [("C08", "boundary", None), ("C08", "dof0-dof1", None), ("C04", "element", lambda cfg: cfg.get("tier") != "thorough")],
     # ... and "all hyperelastic materials": the analytic stress a curve is compared with is the model's documented one --
     # the model functions of the two AD back ends agree (C12 `backends`) and have the documented initial moduli (`moduli`)
-    "C09": [("C15", "Job.evaluate", None), ("C15", "Step.generate", None), ("C08", "loadcase", None), ("C08", "apply", None), ("C12", "backends", lambda cfg: cfg.get("tier") != "thorough"), ("C12", "moduli", lambda cfg: cfg.get("tier") != "thorough")],
+    "C09": [("C15", "Job.evaluate", None), ("C15", "Step.generate", None), ("C08", "loadcase", None), ("C08", "apply", None), ("C12", "backends", lambda cfg: cfg.get("tier") != "thorough" and cfg.get("model") != "native-lagrange"), ("C12", "moduli", lambda cfg: cfg.get("tier") != "thorough")],
 }
